@@ -108,7 +108,8 @@ def run_mutant(m, repo, worker):
     if why:
         return {"id": m["id"], "status": "not-applicable", "why": why}
     try:
-        res = analyse_tree(tree, [m["property"]] + list(m.get("also", [])), worker)
+        props = ["C%02d" % i for i in range(1, 21)] if m["property"] == "*" else [m["property"]] + list(m.get("also", []))
+        res = analyse_tree(tree, props, worker)
     except RuntimeError as e:
         return {"id": m["id"], "status": "build-failed", "why": str(e)[-400:]}
     known = {f["key"] for f in report.load_known().get("findings", [])}
@@ -158,7 +159,7 @@ def cleanup():
 
 def run_for(prop, ctx, repo=None):
     repo = repo or os.environ.get("VERIF_REPO", "/repo")
-    ms = [m for m in load_mutants() if m["property"] == prop]
+    ms = [m for m in load_mutants() if m["property"] == prop or (m["property"] == "*" and prop in m.get("relevant", [prop]))]
     if not ms:
         return None
     try:
